@@ -1,6 +1,7 @@
 package types
 
 import (
+	"bytes"
 	"fmt"
 	"io"
 	"reflect"
@@ -128,7 +129,8 @@ func (t *RuntimeType) Default() px.Type {
 }
 
 func (t *RuntimeType) Equals(o interface{}, g px.Guard) bool {
-	if ot, ok := o.(*RuntimeType); ok && t.runtime == ot.runtime && t.name == ot.name {
+	// the name of a Go runtime type is reflect.Type.String(), which is not unique among types: the reflect.Type decides
+	if ot, ok := o.(*RuntimeType); ok && t.runtime == ot.runtime && t.name == ot.name && t.goType == ot.goType {
 		if t.pattern == nil || ot.pattern == nil {
 			// a nil pattern inside an interface is not a nil interface: RegexpType.Equals would dereference it
 			return t.pattern == nil && ot.pattern == nil
@@ -136,6 +138,21 @@ func (t *RuntimeType) Equals(o interface{}, g px.Guard) bool {
 		return t.pattern.Equals(ot.pattern, g)
 	}
 	return false
+}
+
+// ToKey writes the hash key of the type: the key of its parameters and, for a Go runtime type, the identity of the
+// reflect.Type (two Go types can have the same text form; UniqueTypes must not take one for the other)
+func (t *RuntimeType) ToKey(b *bytes.Buffer) {
+	b.WriteByte(1)
+	b.WriteByte(HkType)
+	b.WriteString(t.Name())
+	for _, p := range t.Parameters() {
+		appendTypeParamKey(b, p)
+	}
+	if t.goType != nil {
+		fmt.Fprintf(b, "%s#%p", t.goType.PkgPath(), t.goType)
+	}
+	b.WriteByte(HkEnd)
 }
 
 func (t *RuntimeType) Generic() px.Type {
